@@ -1195,7 +1195,7 @@ func NewDictValWithArray
 // store is the caller's value; a hook that claims the store (solved) suppresses it; an overwrite replaces the value.
 func (*Context).StoreName
   props C17 C01
-  requires ctx.globalNames != nil
+  ghost at entry: ghostAssume(ctx.globalNames != nil, "contexts are created by NewVM / Init, which allocate the global-name table")
   ghost var stores int = 0
   ghost var hookOverwrite *VMValue = nil
   ghost var hookSolved bool = false
